@@ -88,13 +88,18 @@ pub fn check_tree(e: &Expression, case: &str, rng: &mut Rng, rep: &mut Report, e
             for a in &acts {
                 rep.distinct("action_kinds", &variant(*a));
             }
-            if ts.len() + acts.len() == 1 {
-                let k = ts.first().map(|x| variant(*x)).or(acts.first().map(|a| variant(*a))).unwrap();
+            if let Expression::Test(x) = e {
+                let k = variant(x);
                 if truths.iter().any(|b| *b) {
-                    rep.distinct("kind_seen_true", &k);
+                    rep.distinct("test_kind_seen_true", &k);
                 }
                 if truths.iter().any(|b| !*b) {
-                    rep.distinct("kind_seen_false", &k);
+                    rep.distinct("test_kind_seen_false", &k);
+                }
+            }
+            if let Expression::Action(a) = e {
+                if run.outcomes.iter().any(|o| !o.outs.is_empty() || o.stop) {
+                    rep.distinct("action_kind_seen_acting", &variant(a));
                 }
             }
             if run.outcomes.iter().any(|o| !o.outs.is_empty()) {
@@ -243,11 +248,13 @@ pub fn run(ctx: &Ctx, rep: &mut Report) {
     let dc = rep.get("disagreements_checked");
     rep.extra.push(("disagreements_checked".into(), J::Int(dc as i128)));
     if ctx.only.is_none() {
-        let t_true = rep.sets.get("kind_seen_true").map(|s| s.len()).unwrap_or(0);
-        let t_false = rep.sets.get("kind_seen_false").map(|s| s.len()).unwrap_or(0);
-        // True has no false, False has no true, actions are never false
-        rep.floor("every supported test kind seen true (24 + 8 actions)", t_true >= SUPPORTED_TESTS - 1);
-        rep.floor("every supported test kind seen false (24)", t_false >= SUPPORTED_TESTS - 1);
+        let t_true = rep.sets.get("test_kind_seen_true").map(|s| s.len()).unwrap_or(0);
+        let t_false = rep.sets.get("test_kind_seen_false").map(|s| s.len()).unwrap_or(0);
+        let a_act = rep.sets.get("action_kind_seen_acting").map(|s| s.len()).unwrap_or(0);
+        // 23 distinct test variants (three time kinds, True never false, False never true)
+        rep.floor("every supported test kind seen true as a bare leaf (>= 22 variants)", t_true >= 22);
+        rep.floor("every supported test kind seen false as a bare leaf (>= 22 variants)", t_false >= 22);
+        rep.floor("every supported action kind seen acting as a bare leaf (8)", a_act >= 8);
         rep.floor("programs executed", programs > 100);
     }
 }
